@@ -444,6 +444,28 @@ example :
       net (tupleCheck fail [1, 2, 3]).evs 9 = 0 := by
   decide
 
+/-- **Dispatch is from a snapshot.**  Whatever the handlers do to the notifier
+lists while a notification is being dispatched - remove themselves, remove an
+earlier or a later handler, register new ones, on the trait or on the object -
+the handlers called are exactly those registered when the change happened
+(trait-level first, then object-level), each once, in order. -/
+theorem C18_dispatch_snapshot (act : Id → HAct) (l : Lists) : (dispatch act l).1 = l.t ++ l.o :=
+  dispatchLoop_calls act (l.t ++ l.o) l
+
+/-- Non-vacuity, the input of a seeded defect: anytrait handlers `[1, 2, 3]`,
+the first removes itself: all three are called now, `[2, 3]` at the next change. -/
+example :
+    let act : Id → HAct := fun h => if h = 1 then .removeSelf else .nothing
+    (dispatch act ⟨[], [1, 2, 3]⟩).1 = [1, 2, 3] ∧ (dispatch act ⟨[], [1, 2, 3]⟩).2 = ⟨[], [2, 3]⟩ := by
+  decide
+
+/-- `call_notifiers` hands its loop the freshly allocated list and nothing else:
+the only assignment to `all_notifiers` is from `PyList_New`, and the loop reads
+its callables from `all_notifiers` (translated from the working tree). -/
+theorem C18_call_notifiers_private_copy :
+    CTables.callNotifiersListSources = ["PyList_New"] ∧ CTables.callNotifiersLoopReads = ["all_notifiers"] := by
+  decide
+
 /-! Non-vacuity of the ledger theorems: a trait with `post_setattr` and a
 notifier, first assignment (default materialised, then the converted value
 stored), then a rejected one. -/
